@@ -16,6 +16,10 @@
                               ticket fields never changed since
     c03_nothing_further       a settled record never changes again, is never listed as pending again, and `Settle`
                               fails on it: no later step pays anything on its account
+    c03_counterexample_fee_exceeds_stake   FINDING: "the promised profits sum to ⌊(requested stake − fee)·(odds − 1)⌋"
+                              needs `fee ≤ requested stake`, which neither the handler nor the parameter validators
+                              enforce: a wager of 10 with fee 50 on a book without liquidity is accepted, the bettor
+                              pays 50 for a bet with stake 0 and no parts
 
   `sumBet fs` = Σ_{f ∈ fs} f.bet and `sumProfit fs` = Σ_{f ∈ fs} f.profit (SgeProofs/Lemmas/Wager.lean).
   Backing parts may carry negative stakes (known finding KF-C03-negative-part); nothing here assumes `0 ≤ f.bet`:
@@ -403,6 +407,41 @@ example :
 example :
     (bpView (bpS 13) == bpView (bpS 11) && (bpS 13).bal == (bpS 11).bal && (bpS 13).pending == [] &&
     (settleBet (bpS 13) 3 501).isNone && (settleBet (bpS 13) 5 502).isNone && (settleBet (bpS 13) 6 503).isNone) = true := by
+  decide +kernel
+
+-- ---------------------------------------------------------------------------------------------
+-- FINDING: the hypothesis `fee ≤ requested stake` of the promised-profit clause cannot be dropped
+
+/-- the bet fee (50) exceeds the minimum stake (2): accepted by the parameter validators (`Params.valid`) -/
+def bpFeeParams : Params := { betMin := 2, betFee := 50, houseMin := 2, obThreshold := 0, obMaxPart := 6 }
+/-- a market without any deposit; account 3 wagers 10 (< fee 50) on outcome 11 at odds 3; the market is declared for 11 -/
+def bpFeeOps : List Op := [
+  .marketAdd 9 bpTk 7 1 1000 [11, 12] MS_ACTIVE,
+  .wager 3 bpTk 501 10 (bpPl 7 11 3 11 12),
+  .marketResolve bpTk 7 5 MS_DECLARED [11],
+  .endBlock ]
+
+/-- FINDING (KF-C03-fee-exceeds-stake), proved on the model of the code as it is. The full statement
+      "the profits promised by the parts of an accepted bet sum to the integer part of (requested stake − fee) × (odds − 1)"
+    is false without the hypothesis `fee ≤ requested stake` of `c03_charge_at_placement` / `c03_ticket_origin`:
+    the wager handler only checks `amount ≥ MinAmount`, and the parameter validators do not relate the fee to the
+    minimum amount. With fee 50 and a requested stake of 10 the stake after the fee is −40 and the payout profit −80;
+    on a book whose queue offers no liquidity nothing is matched, `ProcessWager` ends with payout profit < 1 — i.e.
+    "fulfilled" — and the wager is ACCEPTED: the bettor is charged the fee 50 (five times the amount of the message),
+    a bet with recorded stake 0 and no backing part is stored (promised profits 0 ≠ −80), and when its outcome is
+    declared the winner the bet is settled as WON and paid 0 while its fee goes to the market creator.
+    The charge and settlement equations of this file hold nevertheless (charged fee + matched stake = 50 + 0; a winner
+    receives Σ (stake + profit) of its parts = 0). -/
+theorem c03_counterexample_fee_exceeds_stake :
+    let s0 := initState bpFeeParams [(3, 1000), (9, 0)] 1 0
+    (bpFeeParams.valid &&
+    (step (run s0 (bpFeeOps.take 1)) (bpFeeOps.getD 1 .endBlock)).2 == Res.ok &&
+    bpView (run s0 (bpFeeOps.take 2)) == [(3, 1, 501, 0, 50, BS_PLACED, BR_PENDING, 0, [])] &&
+    (run s0 (bpFeeOps.take 2)).bal == [(3, 950), (9, 0), (ACC_BETFEE, 50)] &&
+    (run s0 (bpFeeOps.take 2)).bets.map (fun x => sumProfit x.fulfs) == [0] &&
+    bpPromised ⟨PREC * 3⟩ 10 50 == -80 &&
+    bpView (run s0 bpFeeOps) == [(3, 1, 501, 0, 50, BS_SETTLED, BR_WON, 1, [])] &&
+    (run s0 bpFeeOps).bal == [(3, 950), (9, 50), (ACC_BETFEE, 0)]) = true := by
   decide +kernel
 
 end Sge.Core
